@@ -1,27 +1,40 @@
 // Package tv holds what the translation-validation checks C01 and C02 share: the property-graph enumerator, the
-// configuration matrix and the result comparison.
+// query families, the configuration matrix and the result comparison.
 package tv
 
 import (
 	"fmt"
+	"sort"
+	"strconv"
 	"strings"
 
+	"github.com/specterops/dawgs/cypher/models/cypher"
+	"github.com/specterops/dawgs/graph"
+
+	"verif/cyref"
 	"verif/gm"
 )
 
-// Domain is the attribute alphabet of the graphs enumerated for one query. It is sliced to what the query text can
-// observe: a kind, property key or edge kind the query never mentions keeps a single value (both evaluators are
-// independent of unmentioned attributes by construction; a non-sliced baseline pass guards the assumption).
+// PropDomain is the value alphabet of one property key; Values[0] is Absent.
+type PropDomain struct {
+	Key    string
+	Values []any
+}
+
+// Domain is the attribute alphabet of the graphs enumerated for one query. It is sliced to what the query can observe:
+// a kind or property key the query never mentions does not vary (both evaluators are independent of unmentioned
+// attributes by construction).
 type Domain struct {
 	NodeKindSets [][]string
-	Names        []any // nil = absent
-	Vs           []any
-	Lists        []any
-	Bs           []any
+	NodeProps    []PropDomain
 	EdgeKinds    []string
-	EdgeVs       []any
+	EdgeProps    []PropDomain
 	MaxNodes     int
 	MaxEdges     int
+	// Tame restricts the enumeration to graphs without self loops and without parallel relationships, and the value
+	// alphabets to one type per key: the regime in which DAWGS has no recorded deviation from openCypher, used for the
+	// query families whose disagreements are not attributed to known findings (pattern family, corpus neighbourhood).
+	Tame bool
 }
 
 type absent struct{}
@@ -29,7 +42,8 @@ type absent struct{}
 // Absent marks "property not set" in a domain.
 var Absent = absent{}
 
-// DomainFor derives the sliced domain of a query text.
+// DomainFor derives the sliced domain of an enumerated query text (the feature grammar only uses the kinds
+// NodeKind1/2, EdgeKind1/2 and the keys name, v, list, b).
 func DomainFor(text string, maxNodes, maxEdges int, budget int) Domain {
 	has := func(s string) bool { return strings.Contains(text, s) }
 	d := Domain{MaxNodes: maxNodes, MaxEdges: maxEdges}
@@ -45,72 +59,379 @@ func DomainFor(text string, maxNodes, maxEdges int, budget int) Domain {
 	default:
 		d.NodeKindSets = [][]string{{"NodeKind1"}}
 	}
-	d.Names = []any{Absent}
 	if has("name") {
-		d.Names = []any{Absent, "a", "b"}
+		d.NodeProps = append(d.NodeProps, PropDomain{"name", []any{Absent, "a", "b"}})
 	}
-	d.Vs = []any{Absent}
 	if has(".v") || has("v:") {
-		d.Vs = []any{Absent, int64(1), int64(2), "1"}
+		d.NodeProps = append(d.NodeProps, PropDomain{"v", []any{Absent, int64(1), int64(2), "1"}})
 	}
-	d.Lists = []any{Absent}
 	if has("list") {
-		d.Lists = []any{Absent, []any{"a"}, []any{"b", "a"}, []any{}}
+		d.NodeProps = append(d.NodeProps, PropDomain{"list", []any{Absent, []any{"a"}, []any{"b", "a"}, []any{}}})
 	}
-	d.Bs = []any{Absent}
 	if has(".b") || has("b:") {
-		d.Bs = []any{Absent, true, false}
+		d.NodeProps = append(d.NodeProps, PropDomain{"b", []any{Absent, true, false}})
 	}
 	e1, e2 := has("EdgeKind1"), has("EdgeKind2")
-	observesType := has("type(")
 	switch {
-	case (e1 && e2) || observesType:
-		d.EdgeKinds = []string{"EdgeKind1", "EdgeKind2"}
-	case e1:
+	case e1 || has("type("):
 		d.EdgeKinds = []string{"EdgeKind1", "EdgeKind2"}
 	case e2:
 		d.EdgeKinds = []string{"EdgeKind2", "EdgeKind1"}
 	default:
 		d.EdgeKinds = []string{"EdgeKind1"}
 	}
-	d.EdgeVs = []any{Absent}
 	if has("r.v") || has("r.name") || has("[r") && has(".v") || has("{v:") {
-		d.EdgeVs = []any{Absent, int64(1)}
+		d.EdgeProps = append(d.EdgeProps, PropDomain{"v", []any{Absent, int64(1)}})
 	}
-	// shrink deterministically until the number of graphs fits the budget
+	d.shrink(budget)
+	return d
+}
+
+// DomainForModel derives the domain from the parsed query itself: the kinds its patterns and kind predicates mention,
+// the property keys it looks up, and for each key the literals (and parameter values) it is compared with plus one
+// value of another type and one other value of the same type. Used for corpus queries and their neighbourhood.
+func DomainForModel(m *cypher.RegularQuery, params map[string]any, maxNodes, maxEdges, budget int, tame bool) Domain {
+	d := Domain{MaxNodes: maxNodes, MaxEdges: maxEdges, Tame: tame}
+	relVars := map[string]bool{}
+	nodeKinds, edgeKinds := map[string]bool{}, map[string]bool{}
+	type keyInfo struct {
+		onRel, onNode bool
+		values        []any
+		listValued    bool
+	}
+	keys := map[string]*keyInfo{}
+	key := func(k string) *keyInfo {
+		if keys[k] == nil {
+			keys[k] = &keyInfo{}
+		}
+		return keys[k]
+	}
+	addKinds := func(dst map[string]bool, ks graph.Kinds) {
+		for _, k := range ks {
+			dst[k.String()] = true
+		}
+	}
+	literal := func(x cypher.Expression) (any, bool) {
+		switch t := x.(type) {
+		case *cypher.Literal:
+			if t.Null {
+				return nil, false
+			}
+			if s, ok := t.Value.(string); ok && len(s) >= 2 && (s[0] == '\'' || s[0] == '"') {
+				if dec, err := cyref.DecodeString(s); err == nil {
+					return dec, true
+				}
+				return nil, false
+			}
+			return cyref.Normalize(t.Value), true
+		case *cypher.Parameter:
+			if v, ok := params[t.Symbol]; ok {
+				return cyref.Normalize(v), true
+			}
+		}
+		return nil, false
+	}
+	// pass 1: which variables are relationships
+	cyref.WalkModel(m, func(n cypher.Expression) {
+		if rp, ok := n.(*cypher.RelationshipPattern); ok {
+			if rp.Variable != nil {
+				relVars[rp.Variable.Symbol] = true
+			}
+			addKinds(edgeKinds, rp.Kinds)
+		}
+		if np, ok := n.(*cypher.NodePattern); ok {
+			addKinds(nodeKinds, np.Kinds)
+		}
+	})
+	propOf := func(x cypher.Expression) (*keyInfo, bool) {
+		pl, ok := x.(*cypher.PropertyLookup)
+		if !ok {
+			return nil, false
+		}
+		ki := key(pl.Symbol)
+		if v, isVar := pl.Atom.(*cypher.Variable); isVar && relVars[v.Symbol] {
+			ki.onRel = true
+		} else {
+			ki.onNode = true
+			if _, isVar := pl.Atom.(*cypher.Variable); !isVar {
+				ki.onRel = true // startNode(r).x and the like: be generous
+			}
+		}
+		return ki, true
+	}
+	addValue := func(ki *keyInfo, v any) {
+		switch t := v.(type) {
+		case []any:
+			for _, e := range t {
+				ki.values = append(ki.values, e)
+			}
+		case nil:
+		default:
+			ki.values = append(ki.values, v)
+		}
+	}
+	cyref.WalkModel(m, func(n cypher.Expression) {
+		switch t := n.(type) {
+		case *cypher.KindMatcher:
+			if v, ok := t.Reference.(*cypher.Variable); ok && relVars[v.Symbol] {
+				addKinds(edgeKinds, t.Kinds)
+			} else {
+				addKinds(nodeKinds, t.Kinds)
+			}
+		case *cypher.PropertyLookup:
+			propOf(t)
+		case *cypher.Properties:
+			for k, vx := range t.Map {
+				ki := key(k)
+				ki.onNode, ki.onRel = true, true
+				if v, ok := literal(vx); ok {
+					addValue(ki, v)
+				}
+			}
+		case *cypher.Comparison:
+			left := t.Left
+			for _, p := range t.Partials {
+				for _, pair := range [][2]cypher.Expression{{left, p.Right}, {p.Right, left}} {
+					if ki, ok := propOf(pair[0]); ok {
+						if ll, isList := pair[1].(*cypher.ListLiteral); isList {
+							for _, e := range *ll {
+								if v, ok := literal(e); ok {
+									addValue(ki, v)
+								}
+							}
+						} else if v, ok := literal(pair[1]); ok {
+							if p.Operator == cypher.OperatorIn && pair[0] == p.Right {
+								ki.listValued = true // <literal> IN n.key
+							}
+							addValue(ki, v)
+						}
+					}
+					// type(r) = 'K' / 'K' IN labels(n)
+					if f, ok := pair[0].(*cypher.FunctionInvocation); ok {
+						if v, ok := literal(pair[1]); ok {
+							if s, isS := v.(string); isS {
+								switch strings.ToLower(f.Name) {
+								case "type":
+									edgeKinds[s] = true
+								case "labels":
+									nodeKinds[s] = true
+								}
+							}
+						}
+						if ll, isList := pair[1].(*cypher.ListLiteral); isList {
+							for _, e := range *ll {
+								if v, ok := literal(e); ok {
+									if s, isS := v.(string); isS {
+										switch strings.ToLower(f.Name) {
+										case "type":
+											edgeKinds[s] = true
+										case "labels":
+											nodeKinds[s] = true
+										}
+									}
+								}
+							}
+						}
+					}
+				}
+				left = p.Right
+			}
+		case *cypher.IDInCollection:
+			if ki, ok := propOf(t.Expression); ok {
+				ki.listValued = true
+			}
+		case *cypher.Unwind:
+			if ki, ok := propOf(t.Expression); ok {
+				ki.listValued = true
+			}
+		}
+	})
+
+	// kinds
+	nk := sortedSet(nodeKinds)
+	switch {
+	case len(nk) == 0:
+		d.NodeKindSets = [][]string{{"NodeKind1"}}
+	case len(nk) == 1:
+		d.NodeKindSets = [][]string{{}, {nk[0]}, {nk[0], "OtherKind"}}
+	case len(nk) == 2:
+		d.NodeKindSets = [][]string{{}, {nk[0]}, {nk[1]}, {nk[0], nk[1]}}
+	default:
+		d.NodeKindSets = [][]string{{}}
+		for _, k := range nk {
+			d.NodeKindSets = append(d.NodeKindSets, []string{k})
+		}
+		d.NodeKindSets = append(d.NodeKindSets, []string{nk[0], nk[1]})
+	}
+	ek := sortedSet(edgeKinds)
+	switch {
+	case len(ek) == 0:
+		d.EdgeKinds = []string{"EdgeKind1"}
+	case len(ek) == 1:
+		d.EdgeKinds = []string{ek[0], "OtherEdgeKind"}
+	default:
+		d.EdgeKinds = ek
+		if len(d.EdgeKinds) > 3 {
+			d.EdgeKinds = d.EdgeKinds[:3]
+		}
+	}
+	// properties
+	var ks []string
+	for k := range keys {
+		ks = append(ks, k)
+	}
+	sort.Strings(ks)
+	for _, k := range ks {
+		ki := keys[k]
+		vals := []any{Absent}
+		seen := map[string]bool{}
+		add := func(v any) {
+			c := gm.Canon(v)
+			if !seen[c] {
+				seen[c] = true
+				vals = append(vals, v)
+			}
+		}
+		scalars := dedupeScalars(ki.values)
+		if ki.listValued {
+			switch len(scalars) {
+			case 0:
+				add([]any{"a"})
+				add([]any{})
+			default:
+				add([]any{scalars[0]})
+				add([]any{"zz", scalars[0]})
+				add([]any{})
+			}
+		} else {
+			for i, v := range scalars {
+				if i < 2 {
+					add(v)
+				}
+			}
+			switch {
+			case len(scalars) == 0:
+				add("a")
+				if !tame {
+					add(int64(1))
+				}
+			default:
+				// one other value of the same type and the "same" value in another type
+				switch t := scalars[0].(type) {
+				case string:
+					add("zz")
+					if _, err := strconv.ParseInt(t, 10, 64); err == nil && !tame {
+						n, _ := strconv.ParseInt(t, 10, 64)
+						add(n)
+					}
+				case int64:
+					add(t + 1)
+					if !tame {
+						add(strconv.FormatInt(t, 10))
+					}
+				case float64:
+					add(t + 1)
+				case bool:
+					add(!t)
+				}
+			}
+		}
+		pd := PropDomain{Key: k, Values: vals}
+		if ki.onNode {
+			d.NodeProps = append(d.NodeProps, pd)
+		}
+		if ki.onRel {
+			d.EdgeProps = append(d.EdgeProps, pd)
+		}
+	}
+	d.shrink(budget)
+	return d
+}
+
+func sortedSet(m map[string]bool) []string {
+	out := make([]string, 0, len(m))
+	for k := range m {
+		out = append(out, k)
+	}
+	sort.Strings(out)
+	return out
+}
+
+func dedupeScalars(vals []any) []any {
+	var out []any
+	seen := map[string]bool{}
+	for _, v := range vals {
+		switch v.(type) {
+		case string, int64, float64, bool:
+			c := gm.Canon(v)
+			if !seen[c] {
+				seen[c] = true
+				out = append(out, v)
+			}
+		}
+	}
+	return out
+}
+
+// shrink reduces the domain deterministically until the number of graphs fits the budget.
+func (d *Domain) shrink(budget int) {
+	largest := func(ps []PropDomain) int {
+		best, idx := 0, -1
+		for i, p := range ps {
+			if len(p.Values) > best {
+				best, idx = len(p.Values), i
+			}
+		}
+		return idx
+	}
 	for d.Count() > budget {
+		ni, ei := largest(d.NodeProps), largest(d.EdgeProps)
 		switch {
-		case len(d.Vs) > 3:
-			d.Vs = d.Vs[:3]
-		case len(d.Lists) > 3:
-			d.Lists = d.Lists[:3]
+		case ni >= 0 && len(d.NodeProps[ni].Values) > 3:
+			d.NodeProps[ni].Values = d.NodeProps[ni].Values[:len(d.NodeProps[ni].Values)-1]
+		case ei >= 0 && len(d.EdgeProps[ei].Values) > 2:
+			d.EdgeProps[ei].Values = d.EdgeProps[ei].Values[:len(d.EdgeProps[ei].Values)-1]
 		case len(d.NodeKindSets) > 3:
-			d.NodeKindSets = d.NodeKindSets[:3]
-		case len(d.Names) > 2 && len(d.Vs) > 2:
-			d.Vs = d.Vs[:2]
-		case len(d.Bs) > 2:
-			d.Bs = d.Bs[:2]
-		case len(d.Lists) > 2:
-			d.Lists = d.Lists[:2]
-		case d.MaxEdges > 1 && d.MaxNodes > 1 && d.MaxEdges >= d.MaxNodes:
+			d.NodeKindSets = d.NodeKindSets[:len(d.NodeKindSets)-1]
+		case ni >= 0 && len(d.NodeProps[ni].Values) > 2:
+			d.NodeProps[ni].Values = d.NodeProps[ni].Values[:len(d.NodeProps[ni].Values)-1]
+		case len(d.EdgeProps) > 1:
+			d.EdgeProps = d.EdgeProps[:len(d.EdgeProps)-1]
+		case len(d.EdgeKinds) > 2:
+			d.EdgeKinds = d.EdgeKinds[:len(d.EdgeKinds)-1]
+		case len(d.NodeProps) > 2:
+			d.NodeProps = d.NodeProps[:len(d.NodeProps)-1]
+		case d.MaxEdges > 1 && d.MaxEdges >= d.MaxNodes:
 			d.MaxEdges--
-		case len(d.Vs) > 2:
-			d.Vs = d.Vs[:2]
 		case len(d.NodeKindSets) > 2:
-			d.NodeKindSets = d.NodeKindSets[:2]
+			d.NodeKindSets = d.NodeKindSets[:len(d.NodeKindSets)-1]
 		case d.MaxNodes > 1:
 			d.MaxNodes--
 		case d.MaxEdges > 0:
 			d.MaxEdges--
 		default:
-			return d
+			return
 		}
 	}
-	return d
 }
 
 func (d Domain) nodeAttrs() int {
-	return len(d.NodeKindSets) * len(d.Names) * len(d.Vs) * len(d.Lists) * len(d.Bs)
+	n := len(d.NodeKindSets)
+	for _, p := range d.NodeProps {
+		n *= len(p.Values)
+		if n > 1<<30 {
+			return 1 << 30
+		}
+	}
+	return n
+}
+
+func (d Domain) edgeAttrs() int {
+	n := len(d.EdgeKinds)
+	for _, p := range d.EdgeProps {
+		n *= len(p.Values)
+	}
+	return n
 }
 
 // Count is the number of graphs Enumerate yields.
@@ -124,8 +445,7 @@ func (d Domain) Count() int {
 				return 1 << 40
 			}
 		}
-		tuples := n * n * len(d.EdgeKinds) * len(d.EdgeVs)
-		// multisets of size <= MaxEdges over `tuples` edge shapes
+		tuples := n * n * d.edgeAttrs()
 		ms := 0
 		c := 1
 		for m := 0; m <= d.MaxEdges; m++ {
@@ -133,6 +453,9 @@ func (d Domain) Count() int {
 				c = c * (tuples + m - 1) / m
 			}
 			ms += c
+			if ms > 1<<40 {
+				return 1 << 40
+			}
 		}
 		total += attrs * ms
 		if total > 1<<40 {
@@ -143,11 +466,39 @@ func (d Domain) Count() int {
 }
 
 func (d Domain) String() string {
-	return fmt.Sprintf("nodes<=%d edges<=%d kindsets=%d names=%d vs=%d lists=%d bs=%d edgekinds=%d edgevs=%d graphs=%d",
-		d.MaxNodes, d.MaxEdges, len(d.NodeKindSets), len(d.Names), len(d.Vs), len(d.Lists), len(d.Bs), len(d.EdgeKinds), len(d.EdgeVs), d.Count())
+	var np, ep []string
+	for _, p := range d.NodeProps {
+		np = append(np, fmt.Sprintf("%s:%d", p.Key, len(p.Values)))
+	}
+	for _, p := range d.EdgeProps {
+		ep = append(ep, fmt.Sprintf("%s:%d", p.Key, len(p.Values)))
+	}
+	return fmt.Sprintf("nodes<=%d edges<=%d kindsets=%v nodeprops=%v edgekinds=%v edgeprops=%v graphs=%d",
+		d.MaxNodes, d.MaxEdges, d.NodeKindSets, np, d.EdgeKinds, ep, d.Count())
 }
 
 var nodeIDs = []int64{1, 3, 4, 9}
+
+func propCombos(ps []PropDomain) []map[string]any {
+	out := []map[string]any{{}}
+	for _, p := range ps {
+		var next []map[string]any
+		for _, base := range out {
+			for _, v := range p.Values {
+				m := make(map[string]any, len(base)+1)
+				for k, x := range base {
+					m[k] = x
+				}
+				if v != Absent {
+					m[p.Key] = v
+				}
+				next = append(next, m)
+			}
+		}
+		out = next
+	}
+	return out
+}
 
 // Enumerate yields every graph of the domain: the empty graph, then by number of nodes, node attribute assignment and
 // edge multiset (parallel edges, antiparallel edges and self loops included). The graph handed to yield is reused.
@@ -161,28 +512,10 @@ func (d Domain) Enumerate(yield func(g *gm.Graph) bool) {
 		props map[string]any
 	}
 	var attrs []attr
+	nodeProps := propCombos(d.NodeProps)
 	for _, ks := range d.NodeKindSets {
-		for _, nm := range d.Names {
-			for _, v := range d.Vs {
-				for _, l := range d.Lists {
-					for _, b := range d.Bs {
-						p := map[string]any{}
-						if nm != Absent {
-							p["name"] = nm
-						}
-						if v != Absent {
-							p["v"] = v
-						}
-						if l != Absent {
-							p["list"] = l
-						}
-						if b != Absent {
-							p["b"] = b
-						}
-						attrs = append(attrs, attr{ks, p})
-					}
-				}
-			}
+		for _, p := range nodeProps {
+			attrs = append(attrs, attr{ks, p})
 		}
 	}
 	type shape struct {
@@ -190,16 +523,13 @@ func (d Domain) Enumerate(yield func(g *gm.Graph) bool) {
 		kind  string
 		props map[string]any
 	}
+	edgeProps := propCombos(d.EdgeProps)
 	for n := 1; n <= d.MaxNodes; n++ {
 		var shapes []shape
 		for s := 0; s < n; s++ {
 			for e := 0; e < n; e++ {
 				for _, k := range d.EdgeKinds {
-					for _, v := range d.EdgeVs {
-						p := map[string]any{}
-						if v != Absent {
-							p["v"] = v
-						}
+					for _, p := range edgeProps {
 						shapes = append(shapes, shape{s, e, k, p})
 					}
 				}
@@ -212,7 +542,6 @@ func (d Domain) Enumerate(yield func(g *gm.Graph) bool) {
 				a := attrs[assign[i]]
 				g.Nodes = append(g.Nodes, gm.Node{ID: nodeIDs[i], Kinds: a.kinds, Props: a.props})
 			}
-			// edge multisets: non-decreasing index sequences of length 0..MaxEdges
 			var pick func(start int, chosen []int) bool
 			pick = func(start int, chosen []int) bool {
 				g.Edges = g.Edges[:0]
@@ -227,6 +556,18 @@ func (d Domain) Enumerate(yield func(g *gm.Graph) bool) {
 					return true
 				}
 				for si := start; si < len(shapes); si++ {
+					if d.Tame {
+						if shapes[si].s == shapes[si].e {
+							continue // self loop
+						}
+						dup := false
+						for _, c := range chosen {
+							dup = dup || (shapes[c].s == shapes[si].s && shapes[c].e == shapes[si].e)
+						}
+						if dup {
+							continue // parallel relationship
+						}
+					}
 					if !pick(si, append(chosen, si)) {
 						return false
 					}
@@ -236,7 +577,6 @@ func (d Domain) Enumerate(yield func(g *gm.Graph) bool) {
 			if !pick(0, nil) {
 				return
 			}
-			// next assignment
 			i := 0
 			for ; i < n; i++ {
 				assign[i]++
